@@ -518,7 +518,10 @@ def calendars(rng, n, zones=None):
                 a = rng.choice([360, 480, 540])
                 hours = std_hours(a, a + 480, range(rng.choice([5, 7])))
             elif style == "two":
-                hours = {d: [(480, 720), (780, 1020)] for d in range(5)}
+                two = [(480, 720), (780, 1020)]
+                if rng.random() < 0.5:
+                    two.reverse()               # written afternoon first: the order of the intervals must not matter
+                hours = {d: list(two) for d in range(5)}
             elif style == "night":
                 hours = {d: [(1320, 360)] for d in rng.choice([range(5), range(7), [0, 2, 4]])}
             elif style == "subset":
